@@ -7,6 +7,7 @@ type yields nil on both paths (modelled; reported separately by the harness).
 -/
 import ThriftVerif.Schema.EvolveProofs
 import ThriftVerif.Schema.StreamProofs
+import ThriftVerif.Schema.LazyRefine
 
 namespace ThriftVerif.Properties.C05
 open ThriftVerif.Wire ThriftVerif.Schema
@@ -33,6 +34,20 @@ theorem unknown_field_ignored_stream (env : Env) (fuel : Nat) (n : String) (sd :
   apply decodeS_of_fromWire env (fuel + 1) (.struct n) _ rest g hwt rfl
   rw [fromWire_unknown_field_ignored env fuel n sd hsd fs₁ fs₂ id w h]
   exact hok
+
+/-- The value path as it really runs (lazy `Decode`, then `FromWire`), on bytes: the message with
+the foreign field inserted decodes to the same value as the message without it — the foreign
+field's value, whatever it contains, is validated by the seeking skip and never looked at again. -/
+theorem unknown_field_ignored_lazy (env : Env) (fuel : Nat) (n : String) (sd : StructDef)
+    (hsd : env.find n = some sd) (fs₁ fs₂ : List (UInt16 × WValue)) (id : UInt16) (w : WValue)
+    (h : Foreign sd.fields id w) (hwt : (WValue.struct (fs₁ ++ (id, w) :: fs₂)).wt = true)
+    (rest : Bytes) (g : GVal)
+    (hok : fromWire env (fuel + 1) (.struct n) (.struct (fs₁ ++ fs₂)) = .ok g) :
+    valuePath env (fuel + 1) (.struct n) (enc (.struct (fs₁ ++ (id, w) :: fs₂)) ++ rest) = .ok (g, (rest, 0)) := by
+  apply lazy_refines_strict env (fuel + 1) (.struct n) _ (.struct (fs₁ ++ (id, w) :: fs₂)) rest g
+  · exact dec_enc (.struct (fs₁ ++ (id, w) :: fs₂)) rest _ hwt (size_le_fuelFor _ rest)
+  · rw [fromWire_unknown_field_ignored env fuel n sd hsd fs₁ fs₂ id w h]
+    exact hok
 
 /-- Absent fields: an optional field without default stays unset, one with a default takes
 it, and a required field without default makes decoding fail. -/
